@@ -31,6 +31,8 @@ CONSTANTS MaxRecs, MaxEtas, MaxEdits,
           RichPos,       \* the record position that draws from the full alphabets above; the other records
           TailFix, TailSizes, MaxTailItems, \* ... are plain: DIAG items v [FIX] [; name] and BLOCK(n) on the covariance scale
           NEditVals,     \* 1 or 2 new values per SetInit
+          FixPos,        \* where a fixed BLOCK carries its FIX: "hdr" BLOCK(n) FIX | "first" v FIX | "firstpar" (v FIX)
+                         \*   | "prefix" (FIXED v) | "last" FIX after the last value  (all fix the whole block)
           NSlices, Slice
 
 VARIABLES phase, recs, bs, steps, touched, nadd
@@ -125,7 +127,7 @@ RecEtas(rec) == CASE rec.kind = "DIAG" -> LET RECURSIVE S(_) S(k) == IF k > Len(
 NEtas(rs) == LET RECURSIVE S(_) S(k) == IF k > Len(rs) THEN 0 ELSE RecEtas(rs[k]) + S(k + 1) IN S(1)
 
 Blank == [kind |-> "DIAG", hdr |-> FALSE, items |-> <<>>, size |-> 0, scale |-> "VC", vals |-> <<>>, fix |-> FALSE,
-          named |-> FALSE, bare |-> FALSE, first |-> 1, rep |-> FALSE]
+          named |-> FALSE, bare |-> FALSE, first |-> 1, rep |-> FALSE, fixpos |-> "hdr"]
 
 (* ---------------------------------------------------------------- meaning *)
 (* block: etas (names), m (matrix), fix, same, pn (matrix of parameter names, "" = positional default, "?" = free),
@@ -177,13 +179,16 @@ NewBlock ==
           sc \in (IF Rich(Len(recs) + 1) THEN Scales ELSE {"VC"}),
           fx \in (IF Rich(Len(recs) + 1) THEN BOOLEAN ELSE {FALSE}),
           nm \in (IF Rich(Len(recs) + 1) THEN NameOpts ELSE {FALSE}),
-          rp \in (IF Rich(Len(recs) + 1) THEN BlockRep ELSE {FALSE}) :
+          rp \in (IF Rich(Len(recs) + 1) THEN BlockRep ELSE {FALSE}),
+          fp \in (IF Rich(Len(recs) + 1) THEN FixPos ELSE {"hdr"}) :
           /\ Room(n)
+          /\ ~fx => fp = "hdr"
+          /\ rp => fp \in {"hdr", "first"}
           /\ n = 1 => sc \in {"VC", "SC"}
           /\ sc = "CH" => n <= 2
           /\ rp => n = 3 /\ sc = "VC"
           /\ recs' = Append(recs, [Blank EXCEPT !.kind = "BLOCK", !.size = n, !.scale = sc, !.fix = fx, !.named = nm,
-                                                !.vals = BlockVals(sc, g, n, rp), !.first = g, !.rep = rp])
+                                                !.vals = BlockVals(sc, g, n, rp), !.first = g, !.rep = rp, !.fixpos = fp])
     /\ UNCHANGED <<phase, bs, steps, touched, nadd>>
 NewSame ==
     /\ phase = "build" /\ AllowSame /\ Len(recs) > 0 /\ recs[Len(recs)].kind \in {"BLOCK", "SAME"}
@@ -196,6 +201,8 @@ RecCode(rc) == (IF rc.kind = "DIAG" THEN 3 ELSE IF rc.kind = "BLOCK" THEN 5 ELSE
                + 11 * rc.size + 13 * Len(rc.items) + (IF rc.fix THEN 17 ELSE 0)
                + (IF rc.scale = "SC" THEN 19 ELSE IF rc.scale = "VR" THEN 23 ELSE IF rc.scale = "SR" THEN 29 ELSE IF rc.scale = "CH" THEN 31 ELSE 0)
                + (IF rc.hdr THEN 37 ELSE 0) + (IF rc.named THEN 41 ELSE 0) + (IF rc.bare THEN 43 ELSE 0)
+               + (CASE rc.fixpos = "hdr" -> 0 [] rc.fixpos = "first" -> 71 [] rc.fixpos = "firstpar" -> 73
+                    [] rc.fixpos = "prefix" -> 79 [] OTHER -> 83)
                + (LET RECURSIVE I(_) I(k) == IF k > Len(rc.items) THEN 0
                                              ELSE (k + 1) * ((IF rc.items[k].fix THEN 47 ELSE 0) + (IF rc.items[k].sd THEN 53 ELSE 0)
                                                              + 59 * rc.items[k].rep + (IF rc.items[k].name # "" THEN 61 ELSE 0)
@@ -204,9 +211,13 @@ RecCode(rc) == (IF rc.kind = "DIAG" THEN 3 ELSE IF rc.kind = "BLOCK" THEN 5 ELSE
 LayoutHash(rs) == LET RECURSIVE H(_, _)
                       H(k, acc) == IF k > Len(rs) THEN acc ELSE H(k + 1, (acc * 131 + RecCode(rs[k])) % 10007)
                   IN H(1, 7)
+(* the everyday layouts -- DIAGONAL records of plain values, v [FIX] -- belong to every slice *)
+PlainLayout(rs) == \A r \in 1..Len(rs) : /\ rs[r].kind = "DIAG" /\ ~rs[r].hdr
+                                         /\ \A i \in 1..Len(rs[r].items) :
+                                               LET it == rs[r].items[i] IN ~it.sd /\ it.rep = 1 /\ ~it.par /\ it.name = ""
 StartEdit ==
     /\ phase = "build" /\ Len(recs) > 0
-    /\ NSlices = 1 \/ LayoutHash(recs) % NSlices = Slice
+    /\ NSlices = 1 \/ LayoutHash(recs) % NSlices = Slice \/ PlainLayout(recs)
     /\ phase' = "edit" /\ bs' = Blocks(recs)
     /\ UNCHANGED <<recs, steps, touched, nadd>>
 
@@ -240,7 +251,8 @@ Feat(b) == [src_kind |-> IF b.src = <<0, 0>> THEN "NEW" ELSE recs[b.src[1]].kind
             last_of_multi |-> b.src # <<0, 0>> /\ b.src[2] > 1 /\ b.src[2] = Len(recs[b.src[1]].items),
             rec_has_repeat |-> b.src # <<0, 0>> /\ \E i \in 1..Len(recs[b.src[1]].items) : recs[b.src[1]].items[i].rep > 1,
             size |-> Len(b.etas), fixed |-> b.fix, iov |-> FALSE,
-            block_rep |-> b.src # <<0, 0>> /\ recs[b.src[1]].rep]
+            block_rep |-> b.src # <<0, 0>> /\ recs[b.src[1]].rep,
+            fixpos |-> IF b.src # <<0, 0>> /\ b.src[2] = 0 THEN recs[b.src[1]].fixpos ELSE "hdr"]
 
 PosOf(b, eta) == CHOOSE i \in 1..Len(b.etas) : b.etas[i] = eta
 Base(k) == LET RECURSIVE B(_) B(j) == IF bs[j].same THEN B(j - 1) ELSE j IN B(k)    \* the block whose parameters block k uses
@@ -270,7 +282,10 @@ SetInit(k, i, j, v) ==
 (* fix_parameters / unfix_parameters of all parameters of block k *)
 SetFix(k, f) ==
     /\ Editing /\ k \in 1..Len(bs) /\ ~bs[k].same /\ bs[k].fix # f
-    /\ LET t == touched \cup (IF bs[k].src = <<0, 0>> THEN {} ELSE {bs[k].src})
+    /\ LET r == bs[k].src[1]
+           fixitem == IF bs[k].src = <<0, 0>> \/ bs[k].src[2] # 0 \/ recs[r].fixpos = "hdr" THEN {}
+                      ELSE IF recs[r].fixpos = "last" THEN {<<r, Len(recs[r].vals)>>} ELSE {<<r, 1>>}
+           t == touched \cup (IF bs[k].src = <<0, 0>> THEN {} ELSE {bs[k].src}) \cup fixitem
            q == [a \in 1..Len(bs) |-> IF Base(a) = k THEN [bs[a] EXCEPT !.fix = f] ELSE bs[a]]
        IN /\ bs' = q /\ touched' = t
           /\ steps' = Append(steps, Step([op |-> IF f THEN "Fix" ELSE "Unfix", etas |-> bs[k].etas], Feat(bs[k]), q, t))
@@ -376,9 +391,9 @@ ItemJson(it) == [sd |-> it.sd, fix |-> it.fix, rep |-> it.rep, par |-> it.par, n
                  v |-> DiagSpelled(it), id |-> it.id]
 RecJson(rec) == [kind |-> rec.kind, hdr |-> rec.hdr, items |-> [i \in 1..Len(rec.items) |-> ItemJson(rec.items[i])],
                  size |-> rec.size, scale |-> rec.scale, vals |-> rec.vals, fix |-> rec.fix, named |-> rec.named,
-                 bare |-> rec.bare, first |-> rec.first, rep |-> rec.rep,
+                 bare |-> rec.bare, first |-> rec.first, rep |-> rec.rep, fixpos |-> rec.fixpos,
                  names |-> [i \in 1..rec.size |-> IF rec.named THEN NameOfOm(rec.first + i - 1) ELSE ""]]
-Case == [recs |-> [r \in 1..Len(recs) |-> RecJson(recs[r])], netas |-> NEtas(recs),
+Case == [recs |-> [r \in 1..Len(recs) |-> RecJson(recs[r])], netas |-> NEtas(recs), plain |-> PlainLayout(recs),
          read |-> ProjB(Blocks(recs)), structural |-> Structural, steps |-> steps]
 EmitCase == Terminal => PrintT(<<"CASE", ToJson(Case)>>)
 =============================================================================
